@@ -420,6 +420,9 @@ class Sym:
         if k == 2:
             return (nm, None, ('UTF-8', 'naïve é.txt'), 'application/json')
         if k == 3:
+            # an escaped quote inside a quoted value that is FOLLOWED by another parameter
+            return ('5" ' + nm, 'disk "%d".img' % i, None, None)
+        if k == 4:
             return ('é-' + nm, 'a b;c.txt', ('iso-8859-1', 'é.txt'), 'application/octet-stream')
         raise AssertionError(k)
 
@@ -487,7 +490,7 @@ def build_cases(tier, seed):
         counts[part] = counts.get(part, 0) + 1
 
     bnds = sym.boundaries(tier)
-    nvar = 3 if quick else 4
+    nvar = 4 if quick else 5
 
     # ---- A: forms x envelope x reader geometry, every part read completely -----------------
     for b in bnds:
